@@ -70,7 +70,7 @@ def rule_textedit(check):
     check.floor(R, "uses of the printed text inspected", n_recv, 1)
     # what print_js returns: the code itself or the trailer format whose first piece is the code
     pj = prog.fn("rewriter::print_js")
-    fm = [(n, p) for n, p in fmtargs.formats_in(pj) if any(k == "lit" and "base64" in v for k, v in p)]
+    fm = [(n, p) for n, p in fmtargs.text_assemblies(prog, pj) if any(k == "lit" and "base64" in v for k, v in p)]
     check.floor(R, "trailer format sites", len(fm), 1)
     for n, pieces in fm:
         first = pieces[0]
@@ -96,7 +96,7 @@ def rule_fallback(check):
     prog = check.prog
     pv = Prov(prog)
     pj = prog.fn("rewriter::print_js")
-    enc = [n for n in hir.calls_in(pj.body, name="encode")]
+    enc = [n for n in hir.calls_in(pj.body, name="encode")] + [n for n in hir.calls_in(pj.body, name="encode_string")]
     check.floor(R, "base64 encode sites", len(enc), 1)
     for n in enc:
         os_ = pv.origins(pj, hir.call_args(n)[1])
@@ -313,7 +313,7 @@ def rule_trailer(check):
     sites = []
     for f in prog.user_fns:
         try:
-            fm = fmtargs.formats_in(f)
+            fm = fmtargs.text_assemblies(prog, f)
         except fmtargs.FmtError as e:
             check.bad(R, R + "/undecodable/" + T.short(f), hir.loc(f.rec), str(e))
             continue
@@ -325,26 +325,19 @@ def rule_trailer(check):
     js_start = js.const_string("SOURCE_MAP_INLINE_LINE_START")
     for f, n, pieces in sites:
         text = ""
-        payload = None
+        payload = pieces[-1][1] if pieces and pieces[-1][0] == "arg" and len(pieces) > 1 else None
         for i, (k, v) in enumerate(pieces):
-            if i == 0:
+            if i == 0 or (i == len(pieces) - 1 and k == "arg"):
                 continue
-            if k == "lit":
-                text += v
-            else:
-                dp = hir.def_path_of(v)
-                if dp and dp.endswith("SOURCE_MAP_URL"):
-                    text += prog.const_str("rewriter::SOURCE_MAP_URL")
-                elif i == len(pieces) - 1:
-                    payload = v
-                else:
-                    text += "<?>"
+            text += v if k == "lit" else "<?>"
         want = "\n//# sourceMappingURL=data:application/json;base64,"
         check.expect(text == want, R, R + "/text", hir.loc(n), "trailer text %r" % text, "trailer text is %r, documented %r" % (text, want))
         check.expect(text.lstrip("\n") == js_start, R, R + "/js-agreement", hir.loc(n), "JS reader expects %r" % js_start, "Rust writes %r but js/source-map reads %r" % (text.lstrip("\n"), js_start))
-        ok = payload is not None and hir.is_call(payload) and hir.callee_name(payload) == "encode" and "STANDARD" in hir.describe(payload)
-        check.expect(ok, R, R + "/payload", hir.loc(n), "payload = STANDARD.encode(final map)", "payload is %s" % (hir.describe(payload) if payload else None))
-        check.expect(len(pieces) == 5 and pieces[-1][0] == "arg", R, R + "/ends-with-payload", hir.loc(n), "the content ends with the payload", "text follows the payload")
+        # the payload is the map in the standard base64 alphabet (what `;base64,` announces and what atob, the
+        # sourcemap crate and this rewriter itself - reading its own output again - decode)
+        ok = payload is not None and hir.is_call(payload) and hir.callee_name(payload) in ("encode", "encode_string") and "STANDARD" in hir.describe(hir.call_args(payload)[0]) and "NO_PAD" not in hir.describe(hir.call_args(payload)[0])
+        check.expect(ok, R, R + "/payload", hir.loc(n), "payload = STANDARD.encode(final map)", "payload is %s: a data url announced as `;base64,` must use the standard alphabet with padding, other alphabets differ for the digits 62/63 and are rejected by strict decoders" % (hir.describe(payload) if payload else None))
+        check.expect(payload is not None and pieces[0][0] == "arg", R, R + "/ends-with-payload", hir.loc(n), "the content is code + trailer text + payload", "the content does not end with the payload")
     # JS reader uses the last line
     g = js.function("generateSourceMapFromFileContent")
     idx = [x for x in jsast.walk(g) if x.get("type") == "CallExpression" and jsast.member_chain(x["callee"]["expression"] if "expression" in x["callee"] else x["callee"]) and (jsast.member_chain(x["callee"]) or [""])[-1] == "indexOf"]
